@@ -3,6 +3,7 @@
 import Driver.C01
 import Driver.C02
 import Driver.C03
+import Driver.C18
 import Driver.C15
 import Driver.C07
 import Driver.C09
@@ -75,7 +76,7 @@ partial def loop (h : IO.FS.Stream) (out : IO.FS.Stream) (c : Conf) : IO Unit :=
     | [_, got] =>
       match C03.parseEnv got with
       | some e =>
-        let bad := C03.checkParam e
+        let bad := C03.checkParam e ++ C18.checkAgainstTable e
         out.putStrLn (if bad.isEmpty then "ok ep_param" else "FAIL S model=[] spec=[" ++ String.intercalate ";" bad ++ "] got=[" ++ got ++ "]")
         -- the field context follows the curve selection
         let fpEnv : Option C02.Env := C02.parseEnv c.w ("digs=" ++ toString ((Nat.log2 e.c.p) / c.w + 1) ++ " p=" ++ natToHex e.c.p ++ " u=0 conv=0 qnr=0 cnr=0")
